@@ -110,6 +110,12 @@ def prepass(rep, crate_dir, modules, compile_violation=True, extra_lib=""):
                 rep.infra_errors.append("compile error outside the generated modules: %s: %s" %
                                         (errs[0].get("file"), errs[0]["message"]))
                 continue
+            msg = "; ".join(sorted({e["message"] for e in errs}))[:600]
+            if getattr(m, "role", "") == "pair":
+                alive = [x for x in alive if x.name != m.name]
+                progress = True
+                rep.skipped.append({"module": m.name, "what": "differential pair dropped, one side does not compile (left to C10): " + msg})
+                continue
             rng = _module_line_ranges(m.text(drop_sub=m.name in dropped_wb))
             kinds = set()
             for e in errs:
@@ -221,7 +227,7 @@ def _tools(rep, data):
 
 
 def collect(rep, ids, results, out, crate_dir, harness_timeout, max_replays, stubbing=False,
-            extra_lib="", extra_files=None):
+            extra_lib="", extra_files=None, deps=None):
     prop = rep.prop
     candidates = []
     for hid, (m, h) in ids.items():
@@ -292,14 +298,14 @@ def collect(rep, ids, results, out, crate_dir, harness_timeout, max_replays, stu
     rest = ordered[max_replays:]
 
     def do(c):
-        return replay_candidate(rep, crate_dir, c, harness_timeout, stubbing, extra_lib, extra_files)
+        return replay_candidate(rep, crate_dir, c, harness_timeout, stubbing, extra_lib, extra_files, deps)
     with cf.ThreadPoolExecutor(max_workers=3) as ex:
         outs = list(ex.map(do, todo))
     for c, (ok, path, why) in zip(todo, outs):
         hid, m, h, r, entry, fails = c
         desc = "; ".join(sorted({f.get("description", "") for f in fails}))[:300]
         key = {"kind": "harness", "harness": h.kind, "fn": h.fn, "decl": entry["decl"],
-               "family": m.decl.family if m.decl else None,
+               "family": m.decl.family if m.decl is not None else None,
                "bundle": entry["bundle"], "check": desc,
                "gapless": m.decl.gapless if m.decl else None}
         key.update(getattr(m, "key_extra", {}) or {})
@@ -319,7 +325,7 @@ def collect(rep, ids, results, out, crate_dir, harness_timeout, max_replays, stu
         rep.extra.setdefault("candidates_not_replayed", []).append(hid)
 
 
-def replay_candidate(rep, crate_dir, cand, harness_timeout, stubbing, extra_lib, extra_files):
+def replay_candidate(rep, crate_dir, cand, harness_timeout, stubbing, extra_lib, extra_files, deps=None):
     hid, m, h, r, entry, fails = cand
     prop = rep.prop
     case = re.sub(r"[^A-Za-z0-9_]+", "_", hid)
@@ -334,7 +340,7 @@ def replay_candidate(rep, crate_dir, cand, harness_timeout, stubbing, extra_lib,
     for ti, vals in enumerate(tests[:4]):
         d = rdir if ti == 0 else rdir + "_%d" % ti
         RP.write_replay_crate(d, m.name, m.text(), hid, vals, repo=REPO, extra_lib=extra_lib,
-                              extra_files=extra_files)
+                              extra_files=extra_files, deps=deps)
         with open(os.path.join(d, "README.txt"), "w") as f:
             f.write("Counterexample found by Kani/CBMC for %s\nfailing checks: %s\n"
                     "replay:  cd %s && cargo run --offline --bin replay   (add --release for the release profile)\n"
@@ -366,6 +372,65 @@ def replay_candidate(rep, crate_dir, cand, harness_timeout, stubbing, extra_lib,
                 return True, d, "reproduced under miri: %s" % verdicts
         why.append(str(verdicts))
     return False, rdir, "counterexample did not reproduce natively: %s" % "; ".join(why)
+
+
+def base_case_compile(rep, cases):
+    """C10/C11 base cases: compile each documented combination (rustc, not the solver)"""
+    base = os.path.join(K.WORK, rep.prop)
+    crate_dir = os.path.join(base, "crate_bc")
+    os.makedirs(base, exist_ok=True)
+    E.write_crate(crate_dir, "vt_%s_bc" % rep.prop.lower(), cases, repo=REPO)
+    with open(os.path.join(E.ROOT, "rs", "lib_prelude.rs")) as f:
+        prelude = f.read()
+    alive = list(cases)
+    failed = {}
+    for rnd in range(8):
+        ok, errors, dt = K.native_check(crate_dir, log=os.path.join(base, "basecases_%d.log" % rnd))
+        if ok and not errors:
+            break
+        names = {c.name: c for c in alive}
+        progress = False
+        bymod = {}
+        for e in errors:
+            f = e.get("file") or ""
+            bymod.setdefault(os.path.basename(f)[:-3] if f.endswith(".rs") else None, []).append(e)
+        for mname, errs in bymod.items():
+            c = names.get(mname)
+            if c is None:
+                rep.infra_errors.append("base cases: error outside the generated modules: %s" % errs[0]["message"])
+                continue
+            rng = _module_line_ranges(c.text())
+            in_decl = [e for e in errs if rng["decl"][0] <= e["line"] <= rng["decl"][1]]
+            failed[c.name] = (c, errs, bool(in_decl))
+            alive = [x for x in alive if x.name != c.name]
+            progress = True
+        if not progress:
+            break
+        E.write_lib(crate_dir, prelude, alive, "")
+    for c in cases:
+        entry = {"case": c.cid, "config": c.bundle.describe(), "shape": "gapless" if c.decl.gapless else "holes"}
+        if c.name in failed:
+            _, errs, in_decl = failed[c.name]
+            msg = "; ".join(sorted({e["message"] for e in errs}))[:300]
+            entry["result"] = "rejected" if in_decl else "derive accepted, use of the items failed"
+            entry["error"] = msg
+            if in_decl:
+                d = os.path.join(RP.REPLAYS, rep.prop, "basecase_" + c.cid)
+                RP.write_replay_crate(d, c.name, c.text(), "kani::exhausted", [])
+                with open(os.path.join(d, "README.txt"), "w") as f:
+                    f.write("documented combination rejected: %s\nreproduce: cd %s && cargo build --offline\n%s\n" %
+                            (c.bundle.describe(), d, "\n".join((e.get("rendered") or e["message"]) for e in errs[:4])))
+                case_role = re.sub(r"_[gh]$", "", c.cid)
+                rep.violations.append(Violation(rep.prop, {"kind": "base_case", "case": case_role,
+                                                           "shape": entry["shape"]},
+                                                "documented combination does not compile: %s on a %s enum: %s" %
+                                                (c.bundle.describe(), entry["shape"], msg), d))
+            else:
+                rep.notes.append("base case %s: derive accepted but the touch code failed (%s)" % (c.cid, msg))
+        else:
+            entry["result"] = "compiles"
+        rep.base_cases.append(entry)
+    rep.extra["base_cases_note"] = "compiled with rustc (cargo build), NOT a solver step; listed separately from the solver obligations"
 
 
 # ----------------------------------------------------------------------------------
